@@ -23,7 +23,7 @@ var NTNamePool = []string{
 }
 
 // LitPool: every printable ASCII character the lexer can read as 'c' (all but
-// the backslash, which the lexer only accepts in the form '\'').
+// the backslash, which the lexer only accepts in the form '\”).
 func LitPool() []string {
 	var out []string
 	for c := 32; c < 127; c++ {
@@ -130,8 +130,22 @@ func WithDecls(t *rapid.T, s *Spec) {
 			}
 			used[code] = true
 			tm.Code = code
-			if rapid.IntRange(0, 3).Draw(t, "redecl") == 0 {
-				tm.Redecl = true
+		}
+		if !tm.IsLit() && (tm.Code != 0 || tm.Tag != "") && !tm.TagViaType {
+			// declared twice, the second declaration adding the number, the tag
+			// or both (examples/*.y use the first form)
+			switch rapid.IntRange(0, 7).Draw(t, "redecl") {
+			case 0:
+				if tm.Code != 0 {
+					tm.Redecl = true
+				}
+			case 1:
+				tm.RedeclMode = 2
+			case 2:
+				tm.RedeclMode = 3
+			}
+			if tm.Redecl || tm.RedeclMode != 0 {
+				tm.RedeclLate = rapid.Bool().Draw(t, "redecllate")
 			}
 		}
 	}
